@@ -449,6 +449,10 @@ pub fn scan(image: &[u8], ttl_now: Option<u64>, allow_legacy: bool) -> Result<Sc
     if image.len() % BLOCK != 0 || image.len() <= DATA_START as usize * BLOCK {
         return Err("bad size".into());
     }
+    if image.iter().all(|b| *b == 0) {
+        // never-initialised device: an empty store
+        return Ok(Scan { version: 3, free_blocks: (image.len() / BLOCK) as u64 - DATA_START, ..Default::default() });
+    }
     let (meta, meta_block) = current_meta(image).ok_or("no valid metadata")?;
     let version = meta.version;
     let total_blocks = (image.len() / BLOCK) as u64;
